@@ -272,33 +272,51 @@ def direct_checks(sched, src):
     return errs
 
 def compile_link(sched, root, proj):
-    """write the processed sources and build them together with the untouched data modules and a main program"""
+    """write the processed sources and build them as a build that follows the plan would: generated files instead of the
+    originals they replace, the untouched originals (data modules, files that left the call tree) as they are, a main program"""
     from loki.transformations.build_system import FileWriteTransformation
+    replaced = set()
+    class RecordingFileWrite(FileWriteTransformation):
+        def transform_file(self, sourcefile, **kwargs):
+            item = kwargs.get('item')
+            if item is not None and Path(item.path).exists():
+                replaced.add(os.path.realpath(str(item.path)))
+            return super().transform_file(sourcefile, **kwargs)
     build = os.path.join(root, 'build'); os.makedirs(build, exist_ok=True)
     sched.build_args['output_dir'] = build
-    sched.process(FileWriteTransformation())
-    srcs = [os.path.join(build, f) for f in sorted(os.listdir(build))]
+    sched.process(RecordingFileWrite())
+    written = [os.path.join(build, f) for f in sorted(os.listdir(build))]
+    untouched = []
     for f in proj['files']:
-        if f['module'] and not f['routines']:
-            srcs.append(os.path.join(root, 'src', f['path']))
+        p = os.path.realpath(os.path.join(root, 'src', f['path']))
+        if p not in replaced: untouched.append(p)
     drv = [i for i in sched.items if i.local_name == 'driver'][0]
     use = ('use %s, only: driver\n' % drv.scope_name) if drv.scope_name else ''
     main = os.path.join(build, 'zz_main.F90')
     open(main, 'w').write('program p\n %s integer :: x(3)\n x = 0\n call driver(3, x)\n print *, x(1)\nend program p\n' % use)
     work = os.path.join(root, 'obj'); os.makedirs(work)
-    pend, objs, last, ctr = srcs + [main], [], '', 0
+    must = set(written + [main])
+    pend, objs, libobjs, last, ctr = written + untouched + [main], [], [], {}, 0
     while pend:
         nxt = []
         for f in pend:
             ctr += 1; o = os.path.join(work, '%d.o' % ctr)
             r = subprocess.run(['timeout', '60', 'gfortran', '-c', '-ffree-form', f, '-o', o], cwd=work, capture_output=True, text=True)
-            if r.returncode == 0: objs.append(o)
-            else: nxt.append(f); last = r.stderr
+            if r.returncode == 0: (objs if f in must else libobjs).append(o)
+            else: nxt.append(f); last[f] = r.stderr
         if len(nxt) == len(pend):
-            msg = ' '.join(last.replace(root, '').split())
-            return 'compilation of %s fails: %s' % ([os.path.basename(p) for p in nxt], msg[-260:])
+            bad = [f for f in nxt if f in must]
+            if bad:
+                msg = ' '.join(last[bad[0]].replace(root, '').split())
+                return 'compilation of %s fails: %s' % ([os.path.basename(p) for p in bad], msg[-260:])
+            break       # only untouched originals are left over: they are not part of the processed sources
         pend = nxt
-    r = subprocess.run(['timeout', '60', 'gfortran'] + objs + ['-o', 'a.out'], cwd=work, capture_output=True, text=True)
+    # the untouched originals form a library: only the members the processed sources still need are linked
+    lib = []
+    if libobjs:
+        subprocess.run(['ar', 'rcs', 'libuntouched.a'] + libobjs, cwd=work, capture_output=True, text=True)
+        lib = ['libuntouched.a']
+    r = subprocess.run(['timeout', '60', 'gfortran'] + objs + lib + ['-o', 'a.out'], cwd=work, capture_output=True, text=True)
     if r.returncode:
         return 'linking fails: ' + ' '.join(r.stderr.replace(root, '').split())[-260:]
     r = subprocess.run(['timeout', '20', './a.out'], cwd=work, capture_output=True, text=True)
@@ -446,7 +464,7 @@ class C25(Property):
     ]
 
     def generate(self, rng, tier):
-        n = 130 if tier == 'quick' else 420
+        n = 300 if tier == 'quick' else 600
         for i in range(n):
             allow_plain = rng.random() < 0.5
             # compiled cases: every routine of a written file is a graph item (no unreferenced module routine, clones only of
